@@ -4,6 +4,6 @@ ID=$1; WT=$2
 cd $WT && git reset -q --hard && git checkout -q --detach main && (git apply _seed/patch.diff 2>/dev/null || git apply --3way _seed/patch.diff) || { echo "PATCH DOES NOT APPLY"; exit 1; }
 git status --short | grep -v _seed | head -5
 (PYTHONPATH=$WT /venv/bin/python _seed/demo.py > /tmp/demo_mut_$ID.txt 2>&1; echo "demo with patch rc=$?")
-cd /verif && VERIF_REPO=$WT ./check $ID 2>&1 | grep -E "VIOLATION|failing|done" | cut -c1-400
+cd /verif && cp evidence/$ID.json /tmp/ev_keep_$ID.json && VERIF_REPO=$WT ./check $ID 2>&1 | grep -E "VIOLATION|failing|done" | cut -c1-400; cp /tmp/ev_keep_$ID.json /verif/evidence/$ID.json  # evidence must come from runs against /repo
 cd $WT && git reset -q --hard
 (PYTHONPATH=$WT /venv/bin/python _seed/demo.py > /tmp/demo_clean_$ID.txt 2>&1; echo "demo clean rc=$?")
